@@ -68,7 +68,7 @@ def run(db, chk) -> None:
         init = [e for e in muts if e["what"] == "setcol"]
         stores = [e for e in muts if e["what"] == "loc-store"]
         # ---- R4 sentinel initialisation
-        exp_init = ("clip_hi", CORR, T.C(0))
+        exp_init = T.min2(CORR, T.C(0))
         ok_init = bool(init) and init[0]["term"] == exp_init and all(init[0]["line"] < s["line"] for s in stores)
         chk.ob("C02.R4-sentinel", f"{tag}: index_correlation initialised to min(correlation, 0) before any link is written", ok_init, where,
                found=[T.show(e["term"])[:120] for e in init[:1]] or "no initialisation", accepted=T.show(exp_init),
